@@ -335,6 +335,18 @@ func ruleC18CaseExact(c *Ctx) {
 					filtered = true
 				}
 			}
+			if filtered {
+				for _, s := range srcs {
+					if x, ok := s.(*ssa.Extract); ok {
+						if mc, ok := x.Tuple.(*ssa.Call); ok && core.CalleeKey(&mc.Call) == "encoding/json.Marshal" && x.Index == 0 {
+							_, regions := c.mapFilterRegions(mc.Parent(), peelIface(mc.Call.Args[0]))
+							okWhen, where := c.reencodedWheneverFiltered(mc, regions)
+							c.R.Check(okWhen, rule, construct+":whenever-a-key-was-removed", c.pos(mc), "the struct decoder gets the re-encoding whenever a key was removed from the document",
+								"whether the struct decoder gets the filtered re-encoding or the original bytes depends on more than \"a key was removed\" (test at "+where+"): for a document all of whose keys are unknown the original bytes are decoded again, encoding/json matches them case-insensitively, and {\"Minimum\":10} acts as minimum")
+						}
+					}
+				}
+			}
 			if !filtered {
 				c.R.Bad(rule, construct, c.pos(call), "the bytes given to the struct decoder come from a re-encoding, but the re-encoded map is not filtered by exact membership in the struct's JSON-name set (no delete guarded by a failed lookup in a map[string]bool returned by a package function)")
 				return
@@ -373,6 +385,14 @@ func peelIface(v ssa.Value) ssa.Value {
 // or value) that is control dependent on the not-found outcome of a lookup of
 // k in a map[string]bool obtained from a package function.
 func (c *Ctx) mapFilteredByNameSet(fn *ssa.Function, m ssa.Value) bool {
+	ok, _ := c.mapFilterRegions(fn, m)
+	return ok
+}
+
+// mapFilterRegions: see mapFilteredByNameSet; additionally the entry blocks of the regions in which a key is
+// known not to be a name and is deleted (empty for the maps.DeleteFunc form).
+func (c *Ctx) mapFilterRegions(fn *ssa.Function, m ssa.Value) (bool, []*ssa.BasicBlock) {
+	var regions []*ssa.BasicBlock
 	sameMap := func(a, b ssa.Value) bool {
 		sa, sb := traceSources(a), traceSources(b)
 		for _, x := range sa {
@@ -446,12 +466,70 @@ func (c *Ctx) mapFilteredByNameSet(fn *ssa.Function, m ssa.Value) bool {
 				if sc, ok := src.(*ssa.Call); ok {
 					if callee := sc.Call.StaticCallee(); callee != nil && c.P.InPkg(callee) {
 						found = true
+						regions = append(regions, notFound)
 					}
 				}
 			}
 		}
 	})
-	return found
+	return found, regions
+}
+
+// reencodedWheneverFiltered: the re-encoding `marshal` of the filtered map is made whenever a key was deleted from
+// it: a test that stands between the filter and the re-encoding looks only at what the deleting branch leaves
+// behind (the collection of removed keys, a flag), never at anything else (such as what is left of the map).
+func (c *Ctx) reencodedWheneverFiltered(marshal *ssa.Call, regions []*ssa.BasicBlock) (bool, string) {
+	if len(regions) == 0 {
+		return true, ""
+	}
+	inRegion := func(b *ssa.BasicBlock) bool {
+		for _, r := range regions {
+			if b != nil && b.Parent() == r.Parent() && r.Dominates(b) {
+				return true
+			}
+		}
+		return false
+	}
+	for _, g := range controlGuards(marshal) {
+		if g.At.Parent() != marshal.Parent() {
+			continue
+		}
+		shared := true
+		for _, r := range regions {
+			if !g.At.Block().Dominates(r) {
+				shared = false
+			}
+		}
+		if shared {
+			continue // a condition of the filtering as a whole (the document is an object)
+		}
+		evidence := false
+		for _, v := range backSlice(g.Cond, 20) {
+			if ins, ok := v.(ssa.Instruction); ok && inRegion(ins.Block()) {
+				evidence = true
+			}
+			if phi, ok := v.(*ssa.Phi); ok {
+				for k := range phi.Edges {
+					if inRegion(phi.Block().Preds[k]) {
+						evidence = true
+					}
+				}
+			}
+			if ld, ok := v.(*ssa.UnOp); ok && ld.Op == token.MUL {
+				if cell := resolveCell(ld.X); cell != nil && cell.Referrers() != nil {
+					for _, r := range *cell.Referrers() {
+						if st, ok := r.(*ssa.Store); ok && inRegion(st.Block()) {
+							evidence = true
+						}
+					}
+				}
+			}
+		}
+		if !evidence {
+			return false, c.pos(g.At)
+		}
+	}
+	return true, ""
 }
 
 func ruleC18UnknownAccepted(c *Ctx) {
